@@ -2,6 +2,11 @@
 import Driver.Util
 import Driver.Pure
 import Driver.Vault
+import Driver.Epoch
+import Driver.Quotes
+import Driver.Auth
+import Driver.Lair
+import Driver.Feeflow
 namespace Driver
 
 /-- the state of whichever engine the last `init <engine> …` line selected
@@ -9,6 +14,10 @@ namespace Driver
 inductive EngineState where
   | none
   | vault (s : WW.Vault.St)
+  | epochs (w : WW.Epoch.World)
+  | quotes (q : Driver.Quotes.QSt)
+  | lair (d : LairDrv)
+  | feeflow (fs : FeeflowState)
 
 /-- `init <engine> k=v …` : select the engine and build its initial state; prints the first observation -/
 def initLine (ws : List String) : EngineState × String :=
@@ -17,6 +26,22 @@ def initLine (ws : List String) : EngineState × String :=
     match VaultDrv.initSt args with
     | some s => (.vault s, "ok " ++ VaultDrv.showObs s)
     | none => (.none, "bad-op")
+  | "epochs" :: rest =>
+    match epochInit rest with
+    | some (w, o) => (.epochs w, o)
+    | none => (.none, "bad-op")
+  | "quotes" :: rest =>
+    match Driver.Quotes.initLine rest with
+    | (some q, o) => (.quotes q, o)
+    | (none, o) => (.none, o)
+  | "lair" :: rest =>
+    match lairInit rest with
+    | some (d, o) => (.lair d, o)
+    | none => (.none, "bad-op")
+  | "feeflow" :: rest =>
+    match feeflowInit rest with
+    | (some fs, o) => (.feeflow fs, o)
+    | (none, o) => (.none, o)
   | _ => (.none, "bad-op")
 
 /-- an operation line for the currently selected engine -/
@@ -24,6 +49,10 @@ def opLine (st : EngineState) (ws : List String) : EngineState × String :=
   match st with
   | .none => (st, "bad-op")
   | .vault s => let (s', o) := VaultDrv.stepLine s ws; (.vault s', o)
+  | .epochs w => let (w', o) := epochOp w ws; (.epochs w', o)
+  | .quotes q => let (q', o) := Driver.Quotes.opLine q ws; (.quotes q', o)
+  | .lair d => let (d', o) := lairOp d ws; (.lair d', o)
+  | .feeflow fs => let (fs', o) := FF.opLine fs ws; (.feeflow fs', o)
 
 def stepLine (st : EngineState) (line : String) : EngineState × Option String :=
   match words line with
@@ -31,6 +60,8 @@ def stepLine (st : EngineState) (line : String) : EngineState × Option String :
   | w :: ws =>
     if w.startsWith "#" then (st, none)
     else if w == "call" then (st, some (pureCall ws))
+    else if w == "auth" then (st, some (authLine ws))
+    else if w == "authrule" then (st, some (authRuleLine ws))
     else if w == "init" then let (st', o) := initLine ws; (st', some o)
     else let (st', o) := opLine st (w :: ws); (st', some o)
 
